@@ -80,7 +80,8 @@ def run_tlc(
 ) -> TlcResult:
     spec_dir = Path(spec_dir or SPEC_DIR)
     meta = tempfile.mkdtemp(prefix="tlcmeta_")
-    cmd = ["java", "-XX:+UseParallelGC", "-Xss16m"] + (java_opts or []) + ["-cp", JAVA_CP, "tlc2.TLC"]
+    # (TLC creates an empty tlc-<n> directory under java.io.tmpdir on every start: keep it inside the scratch metadir)
+    cmd = ["java", "-XX:+UseParallelGC", "-Xss16m", f"-Djava.io.tmpdir={meta}"] + (java_opts or []) + ["-cp", JAVA_CP, "tlc2.TLC"]
     cmd += ["-metadir", meta, "-noGenerateSpecTE", "-config", cfg, "-workers", str(workers)]
     if not deadlock:
         cmd += ["-deadlock"]
